@@ -26,6 +26,83 @@ func searchCases(r *rand.Rand, st *Stats, n int, cfg GenCfg, textsPer int, maxTe
 	return cases
 }
 
+// bigTextCases: simple programs on texts around and beyond the 4096-byte windows of the file reader and the
+// initial capacity of the in-memory output stream, each through Run and through a scratch file (RunFiles).
+// Matches are sparse and placed at none / one early / only late / at window boundaries / many positions; some texts
+// are a single line longer than a window.
+func bigTextCases(r *rand.Rand, st *Stats, n int, prefix string) []Case {
+	long := strings.Repeat("z", 5000)
+	progs := []string{
+		"find all whole file", "find all whole line", "find all 'x'", "find all digit", "find all at least 1 digit",
+		"find all (at least 1 digit) = n", "find last 2 'x'", "find skip 1 take 2 'x'", "find all line start letter",
+		"find all not in 'a' to 'w', ' ', '\n'",
+		"replace all 'x' with 'y'", "replace all 'x' with ''", "replace all digit with '<' value '>'",
+		"replace all 'x' with '" + long + "'", "replace all whole file with 'k'", "replace all whole line with value value",
+		"replace top 1 'x' with matchNumber", "replace all 'nomatchatall' with 'q'", "replace last 1 at least 1 digit with 'N'",
+		"replace all (letter = l) 'x' with l l",
+	}
+	sizesB := []int{4095, 4096, 4097, 4200, 5000, 6144, 6145, 8191, 8192, 8193} // the list model reads in O(offset): keep n^2 small
+	out := []Case{}
+	for i := 0; i < n; i++ {
+		src := progs[i%len(progs)]
+		size := sizesB[r.Intn(len(sizesB))]
+		if strings.Contains(src, "whole") {
+			// one consuming read as long as the text (or a line): always beyond one window
+			size = sizesB[3+r.Intn(len(sizesB)-3)]
+		}
+		b := make([]byte, size)
+		oneLine := r.Intn(3) == 0
+		for k := range b {
+			switch {
+			case !oneLine && k%61 == 60:
+				b[k] = '\n'
+			case k%7 == 6:
+				b[k] = ' '
+			default:
+				b[k] = byte('a' + r.Intn(23))
+			}
+		}
+		put := func(pos int) {
+			if pos >= 0 && pos < size {
+				if r.Intn(2) == 0 {
+					b[pos] = 'x'
+				} else {
+					b[pos] = byte('0' + r.Intn(10))
+				}
+			}
+		}
+		switch r.Intn(6) {
+		case 0: // nothing to find
+		case 1:
+			put(10)
+		case 2:
+			put(4096 + r.Intn(size-4095))
+		case 3:
+			for _, w := range []int{2047, 2048, 4095, 4096, 4097, 6143, 6144, 8191, 8192} {
+				put(w)
+			}
+		case 4:
+			put(10)
+			put(size - 1)
+		default:
+			for k := 0; k < 40; k++ {
+				put(r.Intn(size))
+			}
+		}
+		for _, via := range []string{"", "viafile"} {
+			f := []string{hx(src), hx(string(b))}
+			id := fmt.Sprintf("%s%d", prefix, i)
+			if via != "" {
+				f = append(f, via)
+				id += "f"
+			}
+			out = append(out, Case{ID: id, Op: "run", Fields: f, Meta: map[string]string{}})
+		}
+	}
+	st.Counts["big-text-cases"] = len(out)
+	return out
+}
+
 func sizes(tier string, quick, thorough int) int {
 	if tier == "thorough" {
 		return thorough
@@ -69,6 +146,7 @@ func init() {
 		cfg.Amounts = true
 		cfg.MultiCmd = true
 		cs := searchCases(r, st, sizes(tier, 1300, 30000), cfg, 4, 20, "g")
+		cs = append(cs, bigTextCases(r, st, sizes(tier, 20, 200), "big")...)
 		return append(cs, bindFailCases(r, st, sizes(tier, 300, 6000), "b")...)
 	}
 	propGens["C05"] = func(r *rand.Rand, tier string, st *Stats) []Case {
@@ -89,7 +167,8 @@ func init() {
 		cfg.Transforms = true
 		cfg.Amounts = true
 		cfg.MultiCmd = true
-		return searchCases(r, st, sizes(tier, 2000, 40000), cfg, 5, 10, "g")
+		cs := searchCases(r, st, sizes(tier, 2000, 40000), cfg, 5, 10, "g")
+		return append(cs, bigTextCases(r, st, sizes(tier, 20, 200), "big")...)
 	}
 }
 
